@@ -148,6 +148,7 @@ type rStep struct {
 	Timeout  time.Duration
 	Answer   string // "", y, n, eof  ("" = no terminal)
 	Adv      time.Duration
+	Dry      bool // --dry: commands are printed, not run; a dry run is no way to approve anything
 	FromSub  bool // the invocation starts in a sub-directory of the project (the Taskfile is found by walking up)
 	CrashN   int
 	Corrupt  string // content-other, content-garbage, checksum-del, timestamp-garbage
@@ -210,6 +211,7 @@ func genR(ch *vs.Choices, tier string) *rProg {
 			s.Timeout = []time.Duration{10 * time.Second, time.Second}[ch.Draw(2)]
 			s.Answer = []string{"", "y", "n", "eof"}[ch.Draw(4)]
 			s.FromSub = ch.Bool(1, 5)
+			s.Dry = s.Kind == "run" && ch.Bool(1, 6)
 			if s.Kind == "crash" {
 				s.CrashN = 1 + ch.Draw(12)
 			}
@@ -238,6 +240,9 @@ func (s rStep) String() string {
 		}
 		if s.FromSub {
 			a = append(a, "(from ./sub)")
+		}
+		if s.Dry {
+			a = append(a, "--dry")
 		}
 		a = append(a, fmt.Sprintf("--expiry=%v --timeout=%v answer=%q", s.Expiry, s.Timeout, s.Answer))
 		if s.Kind == "crash" {
@@ -474,7 +479,7 @@ func runROne(t *testing.T, ch *vs.Choices, prop, tier string, render bool, p *rP
 				}
 				root := sim.Go(gid, func() {
 					e := task.NewExecutor(runDirOpt, task.WithStdin(stdin), task.WithStdout(stdout), task.WithStderr(stderr),
-						task.WithInsecure(p.Insecure), task.WithDownload(s.Download), task.WithOffline(s.Offline), task.WithTimeout(s.Timeout),
+						task.WithInsecure(p.Insecure), task.WithDry(s.Dry), task.WithDownload(s.Download), task.WithOffline(s.Offline), task.WithTimeout(s.Timeout),
 						task.WithCacheExpiryDuration(s.Expiry), task.WithAssumeYes(s.Yes), task.WithAssumeTerm(s.Answer != ""), task.WithVersionCheck(true))
 					if err := e.Setup(); err != nil {
 						setupErr = err
@@ -609,7 +614,13 @@ func runROne(t *testing.T, ch *vs.Choices, prop, tier string, render bool, p *rP
 				}
 				// ---- availability ----------------------------------------------------------------------
 				netDown := srv.state == "refuse" || srv.state == "hang" || srv.state == "hang-get" || srv.state == "hang-late"
-				if cacheGood && (!p.Second || cacheGood2) && !crashed && (s.Offline || netDown) {
+				if s.Dry {
+					if ran != 0 || nR2 > 0 {
+						out.Violate("C20", "dry_run_executed_remote_commands", "%s: a dry run executed commands of a remote Taskfile", desc)
+					}
+					out.Hit("dry_invocation")
+				}
+				if cacheGood && (!p.Second || cacheGood2) && !crashed && !s.Dry && (s.Offline || netDown) {
 					if ran != cacheVersion || code != 0 || (p.Second && nR2 != 1) {
 						how := "offline"
 						if !s.Offline {
